@@ -23,6 +23,9 @@ def run(tier, t0):
              or 'insert_win_stack_info' in f.path or f.path.startswith('breakpad_symbols::sym_file::parser::stack_win')]
     from . import fpo
     fpo.fpo_formulas(res, prog, 'C07.6')
+    # the FPO return-address skip and .cbParams/.cbCalleeParams rest on what the real walker reports about the grand-callee
+    from .C04 import cfi_walker
+    cfi_walker(res, prog, prog.crate('minidump_unwind'), 'C07.7')
     nontrivial = totality.run_panics(res, prog, scope, 'C07.1', floor_sites=20)
     ev = need_fn(res, c, W + 'eval_win_expr', 'C07.2')
     res.rule('C07.2', 0, floor=12, note='operator table on u32 (as C06.2) plus `=`, `.undef`, the predefined constants and the `@` search-start rule')
